@@ -1,6 +1,6 @@
 (** C06 — Decode->encode->decode is a fixpoint for DHCPv4 and DHCPv6. *)
 From DV Require Import Base.Bytes Label.Model Label.RoundTrip V4.Model V4.OptProofs V4.Proofs V4.RoundTrip V4.Canon V4.Fixpoint
-                       V6.Model V6.Wf V6.RoundTrip.
+                       V6.Model V6.Wf V6.RoundTrip V6.Fixpoint V6.F12Witness.
 
 (** DHCPv4: for EVERY byte string the decoder accepts, encoding the decoded
     packet succeeds, the bytes decode to an equal packet (the only change:
@@ -31,15 +31,72 @@ Proof.
 Qed.
 Print Assumptions C06_labels.
 
-(** DHCPv6, on the encoder's domain: one trip settles the value (a second
-    trip returns the same value and the same bytes).  [C06_v6_partial]:
-    the step from "accepted byte string" to "value of the domain" for DHCPv6
-    (the decoder's image is inside [wf_msg]) is established per option type
-    in V6/Image.v where proved, and otherwise rests on the correspondence
-    run and the direct fixpoint oracle. *)
-Theorem C06_v6_partial : forall m : msg6, wf_msg m -> dec_msg (enc_msg m) = Ok (canon_msg m).
+(** DHCPv6: for EVERY byte string the decoder accepts, if the decoded value
+    re-encodes within the 16-bit length fields ([shorts_msg]: every nested
+    option value stays below 2^16 octets), the re-encoding [b1] decodes to
+    [m2 = canon_msg m] and [m2] encodes to [b1] again.  [canon] changes only
+    what the property allows: a decoded label set is unchanged, a freshly
+    built one remembers its bytes; an embedded DHCPv4 packet becomes its own
+    fixpoint (C06_fixpoint_v4). *)
+Theorem C06_fixpoint_v6 : forall (b : bytes) (m : msg6), dec_msg b = Ok m -> shorts_msg m ->
+  exists m2, dec_msg (enc_msg m) = Ok m2 /\ enc_msg m2 = enc_msg m /\ m2 = canon_msg m.
+Proof. exact fixpoint6. Qed.
+Print Assumptions C06_fixpoint_v6.
+
+(** The side condition holds for every accepted message that embeds no
+    DHCPv4 message: re-encoding never grows (duplicate requested-option
+    codes are dropped, everything else keeps its length), so the fixpoint is
+    unconditional there. *)
+Theorem C06_fixpoint_v6_no_embedded_v4 : forall (b : bytes) (m : msg6), dec_msg b = Ok m -> no_v4_msg m ->
+  exists m2, dec_msg (enc_msg m) = Ok m2 /\ enc_msg m2 = enc_msg m /\ m2 = canon_msg m.
+Proof. exact fixpoint6_no_v4. Qed.
+Print Assumptions C06_fixpoint_v6_no_embedded_v4.
+
+Theorem C06_reencoding_no_longer_v6 : forall (b : bytes) (m : msg6), dec_msg b = Ok m -> no_v4_msg m ->
+  length (enc_msg m) <= length b.
+Proof. exact reencode_no_longer. Qed.
+Print Assumptions C06_reencoding_no_longer_v6.
+
+(** the decoder's image lies in the encoder's domain (C02's [wf_msg]) *)
+Theorem C06_decoded_in_domain_v6 : forall (b : bytes) (m : msg6), dec_msg b = Ok m -> shorts_msg m -> wf_msg m.
+Proof. exact dec_msg_wf. Qed.
+Print Assumptions C06_decoded_in_domain_v6.
+
+(** single options through ParseOption *)
+Theorem C06_fixpoint_option : forall code data o, parse_option code data = Ok o -> u16 code -> shorts o ->
+  parse_option (opt_code o) (enc_val o) = Ok (canon o) /\ enc_val (canon o) = enc_val o.
+Proof. exact fixpoint6_option. Qed.
+Print Assumptions C06_fixpoint_option.
+
+(** Where the side condition fails the code really breaks the property
+    (finding F12): an embedded DHCPv4 message shorter than 300 octets is padded
+    to 300 when re-encoded, so an IA_NA holding 260 of them (63 720 octets on
+    the wire) re-encodes to 79 052 octets and its length field wraps.  The
+    same input is run on the real code and on the extracted model by the
+    harness on every run (known finding, see known_findings.json). *)
+Theorem C06_v6_refuted_when_reencoding_overflows :
+  exists b m, dec_msg b = Ok m /\ N.of_nat (length b) = 63720%N /\ N.of_nat (length (enc_msg m)) = 79060%N /\
+              forall m2, dec_msg (enc_msg m) <> Ok m2.
+Proof. exact F12Witness.C06_v6_refuted_when_reencoding_overflows. Qed.
+Print Assumptions C06_v6_refuted_when_reencoding_overflows.
+
+(** on the encoder's domain (C02): one trip settles the value *)
+Theorem C06_v6_on_domain : forall m : msg6, wf_msg m -> dec_msg (enc_msg m) = Ok (canon_msg m).
 Proof. exact dec_msg_enc. Qed.
-Print Assumptions C06_v6_partial.
+Print Assumptions C06_v6_on_domain.
+
+(** Non-vacuity: duplicate requested-option codes, an IA prefix of length 0, a compressed name,
+    a relay message: accepted, free of embedded DHCPv4, and settled after one trip. *)
+Example C06_example_v6_noncanonical :
+  let b := [x0c; x01] ++ zeros 32 ++ tlv 9 ([x01; x00; x00; x07] ++ tlv 6 [x00; x17; x00; x18; x00; x17]
+              ++ tlv 25 (zeros 12 ++ tlv 26 (zeros 8 ++ [x00] ++ repeat xff 16))
+              ++ tlv 24 [x01; x61; x00; x01; x62; xc0; x00]) in
+  match dec_msg b with
+  | Ok m => match dec_msg (enc_msg m) with
+            | Ok m2 => bytes_eqb (enc_msg m2) (enc_msg m) && negb (bytes_eqb (enc_msg m) b)
+            | _ => false end
+  | _ => false end = true.
+Proof. vm_compute. reflexivity. Qed.
 
 (** Non-vacuity: a non-canonical area (pad, split option 12, junk after End) settles after one trip. *)
 Example C06_example_v4_noncanonical :
